@@ -39,6 +39,8 @@ CONFIGS = [("x64", "elf"), ("x64", "elf"), ("x64", "pe"), ("ia32", "pe"),
 ORD = ["nop", "mov_rr", "xor", "add"]
 ORDX = ORD + ["push_rax", "pop_rax", "push_rbx", "pop_rbx"]
 SECS = {"elf": [".data", ".rodata"], "pe": [".data", ".rdata"]}
+# a second executable section
+EXEC2 = {"elf": ".text.cold", "pe": ".cold"}
 
 
 def gen_case(rng, tier, index):
@@ -55,6 +57,7 @@ def gen_case(rng, tier, index):
     nlab = 0
     planned = [f"lab{i}" for i in range(rng.randrange(0, 6))]
     in_text = True
+    cur_sec = ".text"
     cfi_open = False
     ordk = [k for k in (ORDX if isa in ("x64", "ia32", "arm64") else ORD)
             if k in v]
@@ -120,13 +123,21 @@ def gen_case(rng, tier, index):
         elif r < 0.92:
             lines.append({"d": "align", "n": rng.choice([2, 4, 8, 16])})
         elif r < 0.96:
-            if in_text:
-                lines.append({"sec": rng.choice(SECS[fmt])})
-                in_text = False
+            if in_text and cur_sec == ".text":
+                if not cfi_open and not c["implicit_cfi"] and \
+                        rng.random() < 0.25:
+                    cur_sec = EXEC2[fmt]
+                    lines.append({"sec": cur_sec})
+                else:
+                    cur_sec = rng.choice(SECS[fmt])
+                    lines.append({"sec": cur_sec})
+                    in_text = False
             else:
                 lines.append({"sec": ".text"})
+                cur_sec = ".text"
                 in_text = True
-        elif in_text and fmt == "elf" and not c["implicit_cfi"]:
+        elif in_text and cur_sec == ".text" and fmt == "elf" and \
+                not c["implicit_cfi"]:
             if not cfi_open:
                 lines.append({"cfi": [".cfi_startproc", []]})
                 cfi_open = True
@@ -145,7 +156,7 @@ def gen_case(rng, tier, index):
         lines.append({"cfi": [".cfi_endproc", []]})
     # define remaining planned labels at the end so that all references are
     # defined (unless undefined symbols are allowed)
-    if not in_text and nlab < len(planned):
+    if (not in_text or cur_sec != ".text") and nlab < len(planned):
         lines.append({"sec": ".text"})
     while nlab < len(planned):
         lines.append({"l": planned[nlab]})
@@ -172,6 +183,9 @@ def render(c):
             name = ln["sec"]
             if name in (".text", ".data"):
                 out.append(name)
+            elif name in EXEC2.values():
+                out.append(f'.section {name},"ax",@progbits'
+                           if c["fmt"] == "elf" else f'.section {name},"xr"')
             elif c["fmt"] == "elf":
                 out.append(f'.section {name},"a",@progbits')
             else:
